@@ -14,7 +14,8 @@ def sh(cmd, **kw):
 
 def main():
     prop, name, needs = sys.argv[1], sys.argv[2], sys.argv[3]
-    wt, out = "/tmp/wt/%s" % prop, "/tmp/wt/%s-out" % prop
+    base = os.environ.get("SEED_WT", "/tmp/wt")
+    wt, out = "%s/%s" % (base, prop), "%s/%s-out" % (base, prop)
     dst = "/verif/seeded/%s" % name
     diff = sh("git -C %s diff" % wt).stdout
     if not diff.strip():
@@ -23,12 +24,12 @@ def main():
     env = "PYTHONPATH=%s" % wt
     t = sh("cd %s && %s timeout 1200 /venv/bin/python -m pytest -q -p no:cacheprovider -x -n 6 2>&1 | tail -1" % (wt, env)).stdout.strip()
     with_rc = sh("cd %s && %s /venv/bin/python %s/demo.py" % (wt, env, out)).returncode
-    open("/tmp/wt/%s-import.diff" % prop, "w").write(diff)           # (git stash is shared by all worktrees: never use it here)
-    sh("git -C %s apply -R /tmp/wt/%s-import.diff" % (wt, prop))
+    open("%s/%s-import.diff" % (base, prop), "w").write(diff)           # (git stash is shared by all worktrees: never use it here)
+    sh("git -C %s apply -R %s/%s-import.diff" % (wt, base, prop))
     try:
         without_rc = sh("cd %s && %s /venv/bin/python %s/demo.py" % (wt, env, out)).returncode
     finally:
-        sh("git -C %s apply /tmp/wt/%s-import.diff" % (wt, prop))
+        sh("git -C %s apply %s/%s-import.diff" % (wt, base, prop))
     print("tests:", t, "| demo with change:", with_rc, "| without:", without_rc)
     ok = "632 passed" in t and with_rc != 0 and without_rc == 0
     if not ok:
